@@ -50,7 +50,14 @@ type Tape struct {
 
 // NewTape returns a generating tape.
 func NewTape(seed uint64) *Tape {
-	return &Tape{Vals: make([]uint32, 1024), Kinds: make([]uint8, 1024), rng: seed*0x9E3779B97F4A7C15 + 0x1234567}
+	// The seed is hashed (splitmix64 finaliser) before it becomes the PRNG
+	// state: the state advances by a fixed increment per draw, so un-hashed
+	// consecutive seeds would produce the same stream shifted by one draw.
+	z := seed + 0x9E3779B97F4A7C15
+	z = (z ^ (z >> 30)) * 0xBF58476D1CE4E5B9
+	z = (z ^ (z >> 27)) * 0x94D049BB133111EB
+	z ^= z >> 31
+	return &Tape{Vals: make([]uint32, 1024), Kinds: make([]uint8, 1024), rng: z}
 }
 
 // ReplayTape returns a tape that replays vals.
